@@ -7,6 +7,7 @@ import (
 	"context"
 	"fmt"
 	"math/rand"
+	"os"
 	"sort"
 	"sync"
 	"sync/atomic"
@@ -142,8 +143,8 @@ type byzRun struct {
 }
 
 func unitC07byz(e common.Env, p *common.Part) {
-	p.Rule = "Byzantine members are one or more real disc.Member instances under the same identifier with filtered inputs and re-routed outputs, following targeted plans under which honest members can still complete: partition-and-lie (one Byzantine instance per honest group, partition healed at a PRNG instant), shadow coalition (Byzantine instances that hear only each other and a phantom of a silent member), two-faced without partition, outsider and member replaying every captured transmission under their own identity, response flood (several instances of one identifier answer replayed queries with different views after the victim completed), late surplus announcer (one member more than expected joins at a PRNG instant around the moment the views converge) surplus at a decision point (the victim is held at a verif point of Synchronize while the surplus member announces itself) and view rewrite at a decision point (while the victim is held there, a second instance of a session member that only ever heard silent phantoms announces a different view of the same length to it), mirror (a member whose every transmission to X carries, under its real tag, exactly the list X itself announced or queried last) and crafted lists (its lists are replaced by permuted, duplicated, truncated, padded, empty or 30000-entry lists) and confusable views (its announcements carry the destination's own latest list with entries replaced by values that a sloppy comparison or encoding could confuse with them: the same decimal digits split elsewhere, identifiers from the UTF-16 surrogate range, the same low byte, the same high byte, byte-swapped; its responses mirror the queried list) and answering for a silent member (a configured member that talks to the Byzantine member only; the Byzantine member re-sends everything it receives from it to the honest members over its own link); distinct key = (plan, parameters, seed); non-trivial when an honest member completed or a Byzantine transmission was processed by an honest member"
-	plans := []string{"partition-and-lie", "shadow-coalition", "two-faced", "replay", "response-flood", "shadow-coalition", "partition-and-lie", "late-surplus-announcer", "surplus-at-decision-point", "surplus-at-decision-point", "view-rewrite-at-decision-point", "view-rewrite-at-decision-point", "mirror", "crafted-lists", "confusable-views", "confusable-views", "answering-for-a-silent-member"}
+	p.Rule = "Byzantine members are one or more real disc.Member instances under the same identifier with filtered inputs and re-routed outputs, following targeted plans under which honest members can still complete: partition-and-lie (one Byzantine instance per honest group, partition healed at a PRNG instant), shadow coalition (Byzantine instances that hear only each other and a phantom of a silent member), two-faced without partition, outsider and member replaying every captured transmission under their own identity, response flood (several instances of one identifier answer replayed queries with different views after the victim completed), late surplus announcer (one member more than expected joins at a PRNG instant around the moment the views converge) surplus at a decision point (the victim is held at a verif point of Synchronize while the surplus member announces itself) and view rewrite at a decision point (while the victim is held there, a second instance of a session member that only ever heard silent phantoms announces a different view of the same length to it), mirror (a member whose every transmission to X carries, under its real tag, exactly the list X itself announced or queried last) and crafted lists (its lists are replaced by permuted, duplicated, truncated, padded, empty or 30000-entry lists) and confusable views (its announcements carry the destination's own latest list with entries replaced by values that a sloppy comparison or encoding could confuse with them: the same decimal digits split elsewhere, identifiers from the UTF-16 surrogate range, the same low byte, the same high byte, byte-swapped; its responses mirror the queried list) and answering for a silent member (a configured member that talks to the Byzantine member only; the Byzantine member re-sends everything it receives from it to the honest members over its own link) and retry after a failed call (all honest: a member whose call fails after it has acknowledged the others' lists calls Synchronize again on the same topic, on the same object, together with late members); distinct key = (plan, parameters, seed); non-trivial when an honest member completed or a Byzantine transmission was processed by an honest member"
+	plans := []string{"partition-and-lie", "shadow-coalition", "two-faced", "replay", "response-flood", "shadow-coalition", "partition-and-lie", "late-surplus-announcer", "surplus-at-decision-point", "surplus-at-decision-point", "view-rewrite-at-decision-point", "view-rewrite-at-decision-point", "mirror", "crafted-lists", "confusable-views", "confusable-views", "answering-for-a-silent-member", "retry-after-failed-call"}
 	n := e.Pick(400, 6000)
 	for i := 0; i < n; i++ {
 		if !e.Mine(i) || p.ViolationCount() >= 3 {
@@ -154,6 +155,16 @@ func unitC07byz(e common.Env, p *common.Part) {
 		key := fmt.Sprintf("%s #%d", plan, i)
 		p.Begin(key)
 		r := runByzPlan(plan, i, rng)
+		if os.Getenv("VERIF_DEBUG") == plan {
+			fmt.Fprintf(os.Stderr, "DEBUG %s %s\n", key, r.note)
+			for id, ins := range r.net.insts {
+				for _, in := range ins {
+					in.mu.Lock()
+					fmt.Fprintf(os.Stderr, "   inst %d %s lists=%v err=%v done=%v\n", id, in.tag, in.lists, in.err, in.done)
+					in.mu.Unlock()
+				}
+			}
+		}
 		var sig, what string
 		if e.Property == "C10" {
 			if r.wedge {
@@ -350,6 +361,76 @@ func runByzPlan(plan string, idx int, rng *rand.Rand) byzRun {
 			net.sent.Delete(ph) // never transmitted towards an honest member
 		}
 		return byzRun{net: net, expected: E, note: fmt.Sprintf("expected=%d session=%v victim=%d held at %s=%v rewriting member=%d phantoms=%v announcements to the victim=%d", E, session, V, point, held, b, phantoms, atomic.LoadInt32(&told))}
+	case "retry-after-failed-call":
+		// everybody honest. A, B, C synchronise (expected 3); C is HELD after its size check while it answers the queries of A and B
+		// (they complete with [A B C]); C's context ends, C is released and its call fails. Then C calls Synchronize AGAIN on the same
+		// topic on the same object, together with the late members D and E. Whatever C's second call does, nobody may complete with a
+		// list that names C and differs from what A and B hold.
+		ids := pickIDs(rng, 5, idx%2 == 1)
+		rng.Shuffle(len(ids), func(i, j int) { ids[i], ids[j] = ids[j], ids[i] })
+		A, B, C, D, E := ids[0], ids[1], ids[2], ids[3], ids[4]
+		universe := append([]uint16{}, ids...)
+		sort.Slice(universe, func(i, j int) bool { return universe[i] < universe[j] })
+		net := newDnet(universe, rng)
+		ctxAB, cancelAB := context.WithTimeout(context.Background(), 300*time.Millisecond)
+		defer cancelAB()
+		ctxC, cancelC := context.WithCancel(context.Background())
+		defer cancelC()
+		ia, ib, ic := net.add(A, "honest", true), net.add(B, "honest", true), net.add(C, "honest", true)
+		if os.Getenv("VERIF_DEBUG") == plan && idx < 40 {
+			ic.m.Logger = dbgLog{}
+		}
+		h := holdAt(ic, "sync.sizeChecked")
+		defer dropHold(ic)
+		var first sync.WaitGroup
+		net.start(ctxAB, &first, ia, topic, 3, interval)
+		net.start(ctxAB, &first, ib, topic, 3, interval)
+		var cw sync.WaitGroup
+		net.start(ctxC, &cw, ic, topic, 3, interval)
+		held := false
+		select {
+		case <-h.arrived:
+			held = true
+		case <-time.After(200 * time.Millisecond):
+		}
+		// A and B complete while C is held (C's dispatcher answers their queries)
+		doneAB := make(chan struct{})
+		go func() { first.Wait(); close(doneAB) }()
+		select {
+		case <-doneAB:
+		case <-time.After(320 * time.Millisecond):
+		}
+		cancelC()
+		close(h.release)
+		cw.Wait()
+		ic.mu.Lock()
+		firstErr := ic.err
+		firstLists := len(ic.lists)
+		ic.mu.Unlock()
+		// the retry, together with the late members
+		ctx2, cancel2 := context.WithTimeout(context.Background(), 150*time.Millisecond)
+		defer cancel2()
+		var second sync.WaitGroup
+		if firstErr != nil && firstLists == 0 {
+			// PRNG order and spacing of the three calls
+			order := rng.Perm(3)
+			for _, k := range order {
+				switch k {
+				case 0:
+					net.start(ctx2, &second, ic, topic, 3, interval)
+				case 1:
+					net.start(ctx2, &second, net.add(D, "honest", true), topic, 3, interval)
+				default:
+					net.start(ctx2, &second, net.add(E, "honest", true), topic, 3, interval)
+				}
+				time.Sleep(time.Duration(rng.Intn(4000)) * time.Microsecond)
+			}
+			second.Wait()
+		}
+		ic.mu.Lock()
+		secondErr := ic.err
+		ic.mu.Unlock()
+		return byzRun{net: net, expected: 3, note: fmt.Sprintf("A=%d B=%d C=%d late=%d,%d C held=%v C's first call: %v; C's second call: %v", A, B, C, D, E, held, firstErr, secondErr)}
 	case "answering-for-a-silent-member":
 		// honest callers H, Byzantine b (a real instance that behaves honestly itself), and a configured member ph that takes part but
 		// whose transmissions reach b only. b re-sends every message it receives from ph to the honest members over ITS OWN link: the
@@ -769,3 +850,11 @@ func runByzPlan(plan string, idx int, rng *rand.Rand) byzRun {
 		return byzRun{net: net, expected: 4, wedge: wedge, note: fmt.Sprintf("V=%d b=%d others=%d,%d honest completions before the flood=%d captured=%d", V, b, x, y, completed, len(cap))}
 	}
 }
+
+type dbgLog struct{}
+
+func (dbgLog) DebugEnabled() bool                { return true }
+func (dbgLog) Debugf(f string, a ...interface{}) { fmt.Fprintf(os.Stderr, "   C: "+f+"\n", a...) }
+func (dbgLog) Infof(f string, a ...interface{})  { fmt.Fprintf(os.Stderr, "   C: "+f+"\n", a...) }
+func (dbgLog) Warnf(f string, a ...interface{})  { fmt.Fprintf(os.Stderr, "   C: "+f+"\n", a...) }
+func (dbgLog) Errorf(f string, a ...interface{}) { fmt.Fprintf(os.Stderr, "   C: "+f+"\n", a...) }
